@@ -460,6 +460,8 @@ type FuncContract struct {
 	PanicsNever bool
 	Inline     bool
 	Trusted    bool // extern: no body is verified
+	TrustReason string
+	IsIface    bool
 	Params     []string // extern: parameter names (receiver first for methods)
 	Opaque     bool
 	File       string
@@ -521,7 +523,7 @@ var stageRe = regexp.MustCompile(`^\[stage (\d+)\]\s*`)
 var usingRe = regexp.MustCompile(`\s+using\s+([A-Za-z0-9_, \-]+)$`)
 var propsRe = regexp.MustCompile(`\s+props\s+([A-Z0-9, ]+)$`)
 
-var directiveKw = []string{"func ", "extern ", "requires ", "ensures ", "as-is ", "modifies ", "loop ", "pure-def ", "pure", "panics-never", "inline", "opaque", "spec ", "axiom ", "lemma ", "ghost ", "invariant ", "package ", "const ", "props "}
+var directiveKw = []string{"interface ", "trusted", "func ", "extern ", "requires ", "ensures ", "as-is ", "modifies ", "loop ", "pure-def ", "pure", "panics-never", "inline", "opaque", "spec ", "axiom ", "lemma ", "ghost ", "invariant ", "package ", "const ", "props "}
 
 func isDirective(l string) bool {
 	for _, k := range directiveKw {
@@ -609,10 +611,17 @@ func (sp *Spec) ParseContractFile(path, defaultPkg string) error {
 		case strings.HasPrefix(l, "package "):
 			pkg = strings.TrimSpace(strings.TrimPrefix(l, "package "))
 			cur = nil
-		case strings.HasPrefix(l, "func "), strings.HasPrefix(l, "extern "):
+		case strings.HasPrefix(l, "trusted"):
+			if cur == nil {
+				return fail("trusted outside func")
+			}
+			cur.Trusted = true
+			cur.TrustReason = strings.Trim(strings.TrimSpace(strings.TrimPrefix(l, "trusted")), "\"")
+		case strings.HasPrefix(l, "func "), strings.HasPrefix(l, "extern "), strings.HasPrefix(l, "interface "):
 			ext := strings.HasPrefix(l, "extern ")
-			rest := strings.TrimSpace(strings.TrimPrefix(strings.TrimPrefix(l, "extern "), "func "))
-			fc := &FuncContract{Pkg: pkg, File: path, Line: d.line, Trusted: ext}
+			isIface := strings.HasPrefix(l, "interface ")
+			rest := strings.TrimSpace(strings.TrimPrefix(strings.TrimPrefix(strings.TrimPrefix(l, "extern "), "func "), "interface "))
+			fc := &FuncContract{Pkg: pkg, File: path, Line: d.line, Trusted: ext || isIface, IsIface: isIface}
 			if m := propsRe.FindStringSubmatch(rest); m != nil {
 				for _, u := range strings.Split(m[1], ",") {
 					fc.Props = append(fc.Props, strings.TrimSpace(u))
